@@ -89,7 +89,7 @@ func execReentrant(prop string) func(reentrantCase, core.Source) core.Result {
 				fmt.Sscanf(x.(*shelf).name, "shelf-%d", &k)
 				return k
 			}
-			ok, p = within(10*time.Second, func() {
+			ok, p = within(30*time.Second, func() {
 				switch c.Kind {
 				case "List":
 					l := col.List[any](n).MakeFromArray(shelves)
@@ -132,7 +132,7 @@ func execReentrant(prop string) func(reentrantCase, core.Source) core.Result {
 				}
 			}
 			S := col.Set[*task](n)
-			ok, p = within(10*time.Second, func() {
+			ok, p = within(30*time.Second, func() {
 				s := S.Make()
 				for _, k := range order {
 					s.AddValue(tasks[k])
@@ -154,7 +154,7 @@ func execReentrant(prop string) func(reentrantCase, core.Source) core.Result {
 		}
 		switch {
 		case !ok:
-			fail("the call did not return within 10 s")
+			fail("the call did not return within 30 s")
 		case p != nil:
 			fail("panicked: %s", lib.Short(p))
 		default:
@@ -431,7 +431,7 @@ func runLookups[E comparable](prop string, c lookupCase, mk func(int) E) *core.V
 	notations := []col.NotationLike{nil, lib.Notation(), otherNotation{lib.Notation()}}
 	desc := fmt.Sprintf("the class of %s for a new element type looked up with the notations %v (0 = nil, 1 = CDCN, 2 = another notation class)", c.Kind, c.Order)
 	var problem string
-	ok, p := within(10*time.Second, func() {
+	ok, p := within(30*time.Second, func() {
 		for _, o := range c.Order {
 			n := notations[o]
 			switch c.Kind {
@@ -524,7 +524,7 @@ func runLookups[E comparable](prop string, c lookupCase, mk func(int) E) *core.V
 	})
 	switch {
 	case !ok:
-		return core.Violate(prop+"/class-lookups/hang/"+c.Kind, "%s: a later call did not return within 10 s", desc)
+		return core.Violate(prop+"/class-lookups/hang/"+c.Kind, "%s: a later call did not return within 30 s", desc)
 	case p != nil:
 		return core.Violate(prop+"/class-lookups/panicked/"+c.Kind, "%s: panicked: %s", desc, lib.Short(p))
 	case problem != "":
@@ -1093,7 +1093,7 @@ func execJoinIndependent(prop string) func(joinCase, core.Source) core.Result {
 		}
 		var group sync.WaitGroup
 		var got []int
-		ok, p := within(20*time.Second, func() {
+		ok, p := within(60*time.Second, func() {
 			out := Q.Join(&group, inputs)
 			var producers sync.WaitGroup
 			for i, q := range qs {
@@ -1129,7 +1129,7 @@ func execJoinIndependent(prop string) func(joinCase, core.Source) core.Result {
 		desc := fmt.Sprintf("Join over %d queues of capacity %d, each fed %d values by a producer of its own (producer %d is slow)", c.Inputs, c.Cap, c.Values, c.Slow)
 		switch {
 		case !ok:
-			res.Violation = core.Violate(prop+"/join-independent/hang", "%s: the program did not terminate within 20 s; the output had delivered %d of %d values", desc, len(got), len(want))
+			res.Violation = core.Violate(prop+"/join-independent/hang", "%s: the program did not terminate within 60 s; the output had delivered %d of %d values", desc, len(got), len(want))
 		case p != nil:
 			res.Violation = core.Violate(prop+"/join-independent/panicked", "%s: %s", desc, lib.Short(p))
 		case !lib.EqInts(got, want):
